@@ -974,13 +974,13 @@ theorem nested_hashProt {base : GoMap} {p : HashPayload} (hf : NestedMap base)
 theorem kind_normValN {d : Nat} {v : GoVal} (hv : RTVal d v) (hu : UintOK v) :
     ((∃ a, v = .alg a) ∨ canInt v = true → canInt (normValN v) = true) ∧
     (canUint v = true → canUint (normValN v) = true) ∧
-    (canTstr v = true → canTstr (normValN v) = true) := by
+    (canText v = true → canText (normValN v) = true) := by
   cases hn : isNode v with
   | false =>
     rw [normValN_leaf hn]
     exact kind_normVal ((rtVal_leaf d hn).mp hv) hu
   | true =>
-    cases v <;> simp only [isNode, reduceCtorEq] at hn <;> simp [canInt, canUint, canTstr]
+    cases v <;> simp only [isNode, reduceCtorEq] at hn <;> simp [canInt, canUint, canText]
 
 /-- what the protected-header decoder makes of an entry of the nested data model passes the
     per-entry hash-envelope rule whenever the entry that was encoded did -/
@@ -1692,12 +1692,16 @@ theorem exN_decPu : decProtected exPuN = .ok exPmN := by
     maxInt64, GoVal.keyEq, decodePairs, decodeAny, decodeList, keyHashable,
     validateHeaderParameters, validateLoop, normalizeLabel, wrap64, checkParam, ensureCritical,
     hasLabel, castAlg, algorithmOf, lookupLabel, GoMap.lookup, lbl, GoMap.set, GoMap.has, bind,
-    Out.bind, canInt, canTstr, IntKind.signed]
+    Out.bind, canInt, canTstr, IntKind.signed, Wire.stripSelfDescribed,
+    (by decide : headerLabelsUntagged [0xa3, 0x02, 0x81, 0x3a, 0x00, 0x01, 0x11, 0x70, 0x01, 0x26,
+      0x3a, 0x00, 0x01, 0x11, 0x70, 0xa2, 0x02, 0xf5, 0x01, 0x00] = true)]
 
 theorem exN_decUn : decUnprot exUnN = .ok exUmN := by
   simp [exUnN, exUmN, decUnprot, labelsOK, decUnprotPairs, decodeAny, decodeList, isCsigLabel,
     normalizeLabel, wrap64, maxInt64, validateHeaderParameters, validateLoop, checkParam,
-    GoVal.keyEq, lbl]
+    GoVal.keyEq, lbl, Wire.stripSelfDescribed,
+    (by decide : headerLabelsUntagged (Wire.map .imm [(.uint .w1 99,
+      .arr .imm [.uint .imm 1, .arr .imm [.uint .imm 2]])]).bytes = true)]
 
 theorem exBN_tree : exBN = (if true then [0xd2] else []) ++
     (Wire.arr .imm [exPuN, exUnN, .bstr .imm [1, 2, 3], .bstr .imm [7]]).bytes := by decide
